@@ -54,28 +54,29 @@ fn bench() {
     let t = Instant::now();
     for _ in 0..1000 { std::hint::black_box(icy_engine::Layer::new("x", (14, 9))); }
     println!("Layer::new: {:?}/iter", t.elapsed() / 1000);
-    let alpha = reduced_alphabet();
-    let r = alpha.len() as u64;
-    let per_doc = r + r * r;
-    let mut v = Vec::new();
-    for i in 0..2 * per_doc {
-        let c = enumerated_case(i, r, per_doc, &alpha);
-        let t = Instant::now();
-        std::hint::black_box(check(&c));
-        v.push((t.elapsed(), i, c.ops.iter().map(|o| o.kind()).collect::<Vec<_>>()));
+    use icyv::proptest::strategy::ValueTree;
+    use icyv::proptest::test_runner::TestRunner;
+    let mut runner = TestRunner::deterministic();
+    let strat = cases(Vec::new(), 0);
+    let cs: Vec<Case> = (0..3000).map(|_| strat.new_tree(&mut runner).unwrap().current()).collect();
+    let t = Instant::now();
+    for c in &cs { std::hint::black_box(c.doc.build()); }
+    println!("random build: {:?}/case", t.elapsed() / 3000);
+    let sts: Vec<_> = cs.iter().map(|c| c.doc.build()).collect();
+    let t = Instant::now();
+    for st in &sts { std::hint::black_box(snapshot::take(st.get_buffer())); }
+    println!("random snapshot: {:?}/case", t.elapsed() / 3000);
+    let t = Instant::now();
+    let mut fails = 0;
+    let mut tf = std::time::Duration::ZERO;
+    for c in &cs {
+        let t1 = Instant::now();
+        let v = check(c);
+        if matches!(v, icyv::Verdict::Fail { .. }) { fails += 1; tf += t1.elapsed(); }
     }
-    v.sort();
-    v.reverse();
-    let tot: std::time::Duration = v.iter().map(|x| x.0).sum();
-    println!("total {:?}", tot);
-    for x in v.iter().take(25) { println!("{:?}", x); }
-    for op in &alpha {
-        let c = Case { doc: d.clone(), ops: vec![op.clone()], walk: vec![], k: 0, extra: op.clone(), stepwise: false };
-        let t = Instant::now();
-        for _ in 0..200 { std::hint::black_box(check(&c)); }
-        let e = t.elapsed() / 200;
-        if e.as_micros() > 150 { println!("{:?}: {:?}", op.kind(), e); }
-    }
+    println!("random check: {:?}/case, {} fails costing {:?} each", t.elapsed() / 3000, fails, tf / fails.max(1));
+    let n: usize = cs.iter().map(|c| c.ops.len()).sum();
+    println!("mean len {}", n as f64 / 3000.0);
 }
 
 fn main() {
@@ -129,6 +130,6 @@ fn main() {
     eng.generated_min(PartCfg::new("bulk", 240_000, 4_000_000).shrink_budget(1200), move || cases(av.clone(), 0), check, |_| "-".to_string(), minimize);
     // flip_x / flip_y rebuild the glyph flip tables of every font on each call (25-90 ms): own, smaller part
     let av = avoid.clone();
-    eng.generated_min(PartCfg::new("flip_histories", 2_500, 40_000).shrink_budget(150), move || cases(av.clone(), 30), check, |_| "-".to_string(), minimize);
+    eng.generated_min(PartCfg::new("flip_histories", 1_200, 30_000).shrink_budget(100), move || cases(av.clone(), 25), check, |_| "-".to_string(), minimize);
     eng.run();
 }
